@@ -23,7 +23,10 @@ func mustConst(r *core.Run, rel, name string) int64 {
 	return v
 }
 
-func c04(r *core.Run) { cacRules(r, "C04.") }
+func c04(r *core.Run) {
+	cacRules(r, "C04.")
+	poolTypestate(r, "C04.T1", "pkg/cac", 1)
+}
 
 // cacRules: the content-addressed validator, reported under the given rule prefix (C04, and
 // C06 which relies on cac.Valid as the retrieval-side validator).
